@@ -13,14 +13,14 @@ EXTENDS Radix, Json, CSV, IOUtils
 
 CONSTANTS MaxLen,      \* longest insertion sequence explored
           DumpCases,   \* TRUE: write one JSON line per reachable state to IOEnv.OUT_FILE
-          Uni          \* "full": 72 patterns; "small": a 32-pattern sub-universe (hosts b, ab, a.b, b.b; ports none / *),
+          Uni          \* "full": 72 patterns; "small": a 40-pattern sub-universe (hosts b, ab, a.b, b.b, a.a.b; ports none / *),
                        \* explored one insertion deeper for the same budget
 
 a == 97
 b == 98
 
 PatHosts == IF Uni = "small"
-              THEN << <<b>>, <<a,b>>, <<a,DOT,b>>, <<b,DOT,b>> >>
+              THEN << <<b>>, <<a,b>>, <<a,DOT,b>>, <<b,DOT,b>>, <<a,DOT,a,DOT,b>> >>
               ELSE << <<b>>, <<a,b>>, <<a,DOT,b>>, <<b,DOT,b>>, <<a,b,DOT,b>>, <<a,DOT,a,DOT,b>> >>
 Schemes  == << "s", "t" >>
 PatPorts == IF Uni = "small" THEN << NoPort, AnyPort >> ELSE << NoPort, 1, AnyPort >>
